@@ -619,6 +619,7 @@ def gcat_lookup_wf(self):
 @contract("aldy.gene.Gene.__getitem__", pure=True)
 def _(self, i):
     types(i="Union[int, slice]")
+    returns("str")
     # (symbolic view of a slice: the record slice(start, stop); gene[a:b] is only used with both bounds and no step)
     requires(typed(i, "int") or (typed(i, "slice") and i.start <= i.stop))
     requires(gcat_lookup_wf(self))
